@@ -55,7 +55,7 @@ type op struct {
 	data   []byte
 	src    *ref.TSPacket
 	srcPkt *packet.Packet // when set: the live packet of the other history is the source
-	alias  int            // opTPD / opExt: 1, 2 = the argument is cut from the slice a getter of this very packet returned
+	alias  int            // opTPD / opExt: 1, 2 = the argument is cut from the slice a getter of this very packet returned, 3 = from the buffer the packet lies in
 }
 
 func (o op) String() string {
@@ -73,7 +73,9 @@ func (o op) String() string {
 type runner struct {
 	c                   *mon.Ctx
 	m                   ref.TSPacket
-	p                   packet.Packet
+	buf                 [3 * 188]byte
+	off                 int
+	p                   *packet.Packet // buf[off : off+188]
 	init                packet.Packet
 	hist                []string
 	kinds               map[string]bool
@@ -104,10 +106,24 @@ func (x *runner) apply(o op) {
 		// the argument is (part of) what a getter of this packet returned: a view into the packet itself.
 		// The value to be stored is what the argument holds when the call is made.
 		var view []byte
-		if o.alias == 1 {
-			view, _ = adaptationfield.TransportPrivateData(&x.p)
-		} else {
+		switch o.alias {
+		case 1:
+			view, _ = adaptationfield.TransportPrivateData(x.p)
+		case 2:
 			view, _ = af.AdaptationFieldExtension()
+		default:
+			// ... or a stretch of the enclosing buffer that begins in front of the packet (or anywhere in it) and
+			// runs into it (or on behind it)
+			lo := x.off - 30
+			if lo < 0 {
+				lo = 0
+			}
+			s0 := lo + int((o.val>>32)%uint64(x.off+150-lo))
+			view = x.buf[s0:]
+			if len(view) > 200 {
+				view = view[:200]
+			}
+			x.c.Count("argument_is_cut_from_the_enclosing_buffer")
 		}
 		if len(view) >= 2 {
 			a0 := int(o.val % uint64(len(view)))
@@ -121,7 +137,7 @@ func (x *runner) apply(o op) {
 	next := x.m.Clone()
 	a := &next.AF
 	wantErr := false
-	before := x.p
+	before := *x.p
 	var got error
 	x.hist = append(x.hist, o.String())
 	c.Tracef("%s", o.String())
@@ -269,7 +285,11 @@ func (x *runner) apply(o op) {
 	}
 	name := opNames[o.kind]
 	if aliased {
-		name += "(argument cut from a getter result of the same packet)"
+		if o.alias == 3 {
+			name += "(argument cut from the buffer the packet lies in)"
+		} else {
+			name += "(argument cut from a getter result of the same packet)"
+		}
 	}
 	if wantErr {
 		x.refused++
@@ -283,7 +303,7 @@ func (x *runner) apply(o op) {
 			x.fail("no-error:"+name, fmt.Sprintf("%s succeeded although %s (L=%d, content would be %d bytes)", o, why, next.L, next.AF.Size()), nil)
 			return
 		}
-		if x.p != before {
+		if *x.p != before {
 			d := ref.FirstDiff(x.p[:], before[:])
 			x.fail("error-but-modified:"+name, fmt.Sprintf("%s returned %q but changed the packet (first difference at byte %d)", o, got, d), nil)
 			return
@@ -305,7 +325,7 @@ func (x *runner) apply(o op) {
 	}
 	x.m = next
 	want := x.m.Bytes()
-	if x.p != packet.Packet(want) {
+	if *x.p != packet.Packet(want) {
 		d := ref.FirstDiff(x.p[:], want[:])
 		where := "adaptation field"
 		switch {
@@ -332,77 +352,77 @@ func (x *runner) getters(o op) {
 	c, m := x.c, &x.m
 	af, _ := x.p.AdaptationField()
 	bad := func(sig, d string) { x.fail("getter:"+sig, "after "+o.String()+": "+d, nil) }
-	if g, err := af.Discontinuity(); err != nil || g != m.AF.DI || adaptationfield.IsDiscontinuous(&x.p) != m.AF.DI {
-		bad("discontinuity", fmt.Sprintf("Discontinuity()=%v,%v / IsDiscontinuous=%v, set %v", g, err, adaptationfield.IsDiscontinuous(&x.p), m.AF.DI))
+	if g, err := af.Discontinuity(); err != nil || g != m.AF.DI || adaptationfield.IsDiscontinuous(x.p) != m.AF.DI {
+		bad("discontinuity", fmt.Sprintf("Discontinuity()=%v,%v / IsDiscontinuous=%v, set %v", g, err, adaptationfield.IsDiscontinuous(x.p), m.AF.DI))
 	}
-	if g, err := af.RandomAccess(); err != nil || g != m.AF.RAI || adaptationfield.IsRandomAccess(&x.p) != m.AF.RAI {
+	if g, err := af.RandomAccess(); err != nil || g != m.AF.RAI || adaptationfield.IsRandomAccess(x.p) != m.AF.RAI {
 		bad("random-access", fmt.Sprintf("RandomAccess()=%v,%v, set %v", g, err, m.AF.RAI))
 	}
-	if g, err := af.ElementaryStreamPriority(); err != nil || g != m.AF.ESPI || adaptationfield.IsESHigherPriority(&x.p) != m.AF.ESPI {
+	if g, err := af.ElementaryStreamPriority(); err != nil || g != m.AF.ESPI || adaptationfield.IsESHigherPriority(x.p) != m.AF.ESPI {
 		bad("es-priority", fmt.Sprintf("ElementaryStreamPriority()=%v,%v, set %v", g, err, m.AF.ESPI))
 	}
-	if af.Length() != m.L || int(adaptationfield.Length(&x.p)) != m.L {
-		bad("length", fmt.Sprintf("Length()=%d / %d, adaptation_field_length is %d", af.Length(), adaptationfield.Length(&x.p), m.L))
+	if af.Length() != m.L || int(adaptationfield.Length(x.p)) != m.L {
+		bad("length", fmt.Sprintf("Length()=%d / %d, adaptation_field_length is %d", af.Length(), adaptationfield.Length(x.p), m.L))
 	}
 	// PCR
-	if g, err := af.HasPCR(); err != nil || g != (m.AF.PCR != nil) || adaptationfield.HasPCR(&x.p) != (m.AF.PCR != nil) {
+	if g, err := af.HasPCR(); err != nil || g != (m.AF.PCR != nil) || adaptationfield.HasPCR(x.p) != (m.AF.PCR != nil) {
 		bad("has-pcr", fmt.Sprintf("HasPCR()=%v,%v present=%v", g, err, m.AF.PCR != nil))
 	}
 	if m.AF.PCR != nil {
 		if g, err := af.PCR(); err != nil || g != ref.DecPCR(m.AF.PCR[:]) {
 			bad("pcr", fmt.Sprintf("PCR()=%d,%v, last value set %d", g, err, ref.DecPCR(m.AF.PCR[:])))
 		}
-		if b, err := adaptationfield.PCR(&x.p); err != nil || !bytes.Equal(b, m.AF.PCR[:]) {
+		if b, err := adaptationfield.PCR(x.p); err != nil || !bytes.Equal(b, m.AF.PCR[:]) {
 			bad("pcr-func", fmt.Sprintf("adaptationfield.PCR=%x,%v, field bytes %x", b, err, m.AF.PCR[:]))
 		}
 	} else {
 		if _, err := af.PCR(); err == nil {
 			bad("pcr-absent", "PCR() returned no error for an absent PCR")
 		}
-		if _, err := adaptationfield.PCR(&x.p); err == nil {
+		if _, err := adaptationfield.PCR(x.p); err == nil {
 			bad("pcr-func-absent", "adaptationfield.PCR returned no error for an absent PCR")
 		}
 	}
 	// OPCR
-	if g, err := af.HasOPCR(); err != nil || g != (m.AF.OPCR != nil) || adaptationfield.HasOPCR(&x.p) != (m.AF.OPCR != nil) {
+	if g, err := af.HasOPCR(); err != nil || g != (m.AF.OPCR != nil) || adaptationfield.HasOPCR(x.p) != (m.AF.OPCR != nil) {
 		bad("has-opcr", fmt.Sprintf("HasOPCR()=%v,%v present=%v", g, err, m.AF.OPCR != nil))
 	}
 	if m.AF.OPCR != nil {
 		if g, err := af.OPCR(); err != nil || g != ref.DecPCR(m.AF.OPCR[:]) {
 			bad("opcr", fmt.Sprintf("OPCR()=%d,%v, last value set %d", g, err, ref.DecPCR(m.AF.OPCR[:])))
 		}
-		if b, err := adaptationfield.OPCR(&x.p); err != nil || !bytes.Equal(b, m.AF.OPCR[:]) {
+		if b, err := adaptationfield.OPCR(x.p); err != nil || !bytes.Equal(b, m.AF.OPCR[:]) {
 			bad("opcr-func", fmt.Sprintf("adaptationfield.OPCR=%x,%v, field bytes %x", b, err, m.AF.OPCR[:]))
 		}
 	} else {
 		if _, err := af.OPCR(); err == nil {
 			bad("opcr-absent", "OPCR() returned no error for an absent OPCR")
 		}
-		if _, err := adaptationfield.OPCR(&x.p); err == nil {
+		if _, err := adaptationfield.OPCR(x.p); err == nil {
 			bad("opcr-func-absent", "adaptationfield.OPCR returned no error for an absent OPCR")
 		}
 	}
 	// splice countdown
-	if g, err := af.HasSplicingPoint(); err != nil || g != (m.AF.Splice != nil) || adaptationfield.HasSplicingPoint(&x.p) != (m.AF.Splice != nil) {
+	if g, err := af.HasSplicingPoint(); err != nil || g != (m.AF.Splice != nil) || adaptationfield.HasSplicingPoint(x.p) != (m.AF.Splice != nil) {
 		bad("has-splice", fmt.Sprintf("HasSplicingPoint()=%v,%v present=%v", g, err, m.AF.Splice != nil))
 	}
 	if m.AF.Splice != nil {
 		if g, err := af.SpliceCountdown(); err != nil || g != int(int8(*m.AF.Splice)) {
 			bad("splice", fmt.Sprintf("SpliceCountdown()=%d,%v, last value set %d", g, err, int8(*m.AF.Splice)))
 		}
-		if g, err := adaptationfield.SpliceCountdown(&x.p); err != nil || g != *m.AF.Splice {
+		if g, err := adaptationfield.SpliceCountdown(x.p); err != nil || g != *m.AF.Splice {
 			bad("splice-func", fmt.Sprintf("adaptationfield.SpliceCountdown=%d,%v, last value set %d", g, err, *m.AF.Splice))
 		}
 	} else {
 		if _, err := af.SpliceCountdown(); err == nil {
 			bad("splice-absent", "SpliceCountdown() returned no error for an absent field")
 		}
-		if _, err := adaptationfield.SpliceCountdown(&x.p); err == nil {
+		if _, err := adaptationfield.SpliceCountdown(x.p); err == nil {
 			bad("splice-func-absent", "adaptationfield.SpliceCountdown returned no error for an absent field")
 		}
 	}
 	// transport private data
-	if g, err := af.HasTransportPrivateData(); err != nil || g != (m.AF.TPD != nil) || adaptationfield.HasTransportPrivateData(&x.p) != (m.AF.TPD != nil) {
+	if g, err := af.HasTransportPrivateData(); err != nil || g != (m.AF.TPD != nil) || adaptationfield.HasTransportPrivateData(x.p) != (m.AF.TPD != nil) {
 		bad("has-tpd", fmt.Sprintf("HasTransportPrivateData()=%v,%v present=%v", g, err, m.AF.TPD != nil))
 	}
 	if m.AF.TPD != nil {
@@ -417,25 +437,25 @@ func (x *runner) getters(o op) {
 		default:
 			bad("tpd", fmt.Sprintf("TransportPrivateData()=%x,%v, last value set %x", g, err, v))
 		}
-		if g2, err := adaptationfield.TransportPrivateData(&x.p); err != nil || !bytes.Equal(g2, v) {
+		if g2, err := adaptationfield.TransportPrivateData(x.p); err != nil || !bytes.Equal(g2, v) {
 			bad("tpd-func", fmt.Sprintf("adaptationfield.TransportPrivateData=%x,%v, last value set %x", g2, err, v))
 		}
-		if g3, err := adaptationfield.EncoderBoundaryPoint(&x.p); err != nil || !bytes.Equal(g3, v) {
+		if g3, err := adaptationfield.EncoderBoundaryPoint(x.p); err != nil || !bytes.Equal(g3, v) {
 			bad("ebp-func", fmt.Sprintf("adaptationfield.EncoderBoundaryPoint=%x,%v, private data is %x", g3, err, v))
 		}
 	} else {
 		if _, err := af.TransportPrivateData(); err == nil {
 			bad("tpd-absent", "TransportPrivateData() returned no error for an absent field")
 		}
-		if _, err := adaptationfield.TransportPrivateData(&x.p); err == nil {
+		if _, err := adaptationfield.TransportPrivateData(x.p); err == nil {
 			bad("tpd-func-absent", "adaptationfield.TransportPrivateData returned no error for an absent field")
 		}
-		if _, err := adaptationfield.EncoderBoundaryPoint(&x.p); err == nil {
+		if _, err := adaptationfield.EncoderBoundaryPoint(x.p); err == nil {
 			bad("ebp-func-absent", "adaptationfield.EncoderBoundaryPoint returned no error without private data")
 		}
 	}
 	// extension
-	if g, err := af.HasAdaptationFieldExtension(); err != nil || g != (m.AF.Ext != nil) || adaptationfield.HasAdaptationFieldExtension(&x.p) != (m.AF.Ext != nil) {
+	if g, err := af.HasAdaptationFieldExtension(); err != nil || g != (m.AF.Ext != nil) || adaptationfield.HasAdaptationFieldExtension(x.p) != (m.AF.Ext != nil) {
 		bad("has-ext", fmt.Sprintf("HasAdaptationFieldExtension()=%v,%v present=%v", g, err, m.AF.Ext != nil))
 	}
 	if m.AF.Ext != nil {
@@ -452,7 +472,7 @@ func (x *runner) getters(o op) {
 	} else if _, err := af.AdaptationFieldExtension(); err == nil {
 		bad("ext-absent", "AdaptationFieldExtension() returned no error for an absent field")
 	}
-	if x.p != packet.Packet(m.Bytes()) {
+	if *x.p != packet.Packet(m.Bytes()) {
 		x.fail("getter:mutates", "a getter modified the packet", nil)
 	}
 }
@@ -493,7 +513,7 @@ func randomOp(r *gen.Rand, m *ref.TSPacket) op {
 		}
 		o.data = r.Bytes(k)
 		if r.Chance(10) {
-			o.alias, o.val = 1+r.Intn(2), r.Uint64()
+			o.alias, o.val = 1+r.Intn(3), r.Uint64()
 		}
 	case opExt:
 		k := r.Intn(10)
@@ -517,7 +537,7 @@ func randomOp(r *gen.Rand, m *ref.TSPacket) op {
 		}
 		o.data = r.Bytes(k)
 		if r.Chance(10) {
-			o.alias, o.val = 1+r.Intn(2), r.Uint64()
+			o.alias, o.val = 1+r.Intn(3), r.Uint64()
 		}
 	case opSetAF:
 		L := 1 + r.Intn(183)
@@ -551,8 +571,11 @@ func newRunner(c *mon.Ctx, m ref.TSPacket) *runner {
 	x := &runners[nextRunner%len(runners)]
 	nextRunner++
 	*x = runner{c: c, m: m, kinds: map[string]bool{}}
-	x.p = packet.Packet(m.Bytes())
-	x.init = x.p
+	// ... at any position inside a larger buffer (a receive buffer cut into packets)
+	x.off = int(func() uint64 { b := m.Bytes(); return gen.HashString(string(b[:])) }() % uint64(len(x.buf)-188+1))
+	x.p = (*packet.Packet)(x.buf[x.off : x.off+188])
+	*x.p = packet.Packet(m.Bytes())
+	x.init = *x.p
 	x.hist = nil
 	return x
 }
@@ -739,10 +762,10 @@ func run(c *mon.Ctx) {
 			o := randomOp(r, &a.m)
 			if o.kind == opSetAF && r.Bool() {
 				src := b.m.Clone()
-				o.src, o.srcPkt = &src, &b.p
+				o.src, o.srcPkt = &src, b.p
 			}
 			a.apply(o)
-			if !a.dead && b.p != packet.Packet(b.m.Bytes()) {
+			if !a.dead && *b.p != packet.Packet(b.m.Bytes()) {
 				b.fail("interleaved:other-packet-changed", "an operation on one packet changed another packet", nil)
 			}
 		}
